@@ -1,7 +1,50 @@
-(* C09 -- placeholder; theorems are added from proofs/ *)
-Require Import Coq.Lists.List Coq.NArith.NArith.
-From Mustache Require Import Res Manager.
+(* C09 -- operations through dead, null or foreign handles are harmless. Statements only.
+   "Not valid" covers all three kinds: the null handle, a handle of another world (the implementation compares world
+   ids; the model's handles are per world, so a foreign handle is one no creation of this world returned), and a handle
+   whose entity was destroyed -- also after its id was recycled, because a recycled id carries a newer version (C01). *)
+Require Import Coq.Lists.List Coq.NArith.NArith Coq.ZArith.ZArith.
+From Mustache Require Import Res Manager Palette MgrSpec Refine.
+From Mustache.proofs Require Import ManagerIsolation.
 Import ListNotations.
-Example C09_placeholder : mitems 5%N = [0; 2].
-Proof. vm_compute. reflexivity. Qed.
-Print Assumptions C09_placeholder.
+
+(* every checked entry point, immediate mode: result is null / false / nothing and the state is unchanged -- for
+   EVERY state (not only reachable ones) and every handle the validity test rejects *)
+Theorem C09_harmless_immediate : forall s h,
+  lockc s = 0 -> is_valid s h = false ->
+  (forall tid, step s (ODestroyNow tid h) = Ok (s, RNone)) /\
+  (forall tid c, step s (ORemove tid h c true) = Ok (s, RNone)) /\
+  (forall c, step s (OGetConst h c) = Ok (s, RCell false None)) /\
+  (forall c w, step s (OGetMut h c w) = Ok (s, RCell false None)) /\
+  (forall c, step s (OHas h c) = Ok (s, RBool false)) /\
+  (forall c, step s (OMarkDirty h c) = Ok (s, RNone)) /\
+  step s (OClone h) = Ok (s, RNullHandle) /\
+  (forall sid, step s (ORemoveShared h sid) = Ok (s, RBool false)).
+Proof. exact harmless_unlocked. Qed.
+Print Assumptions C09_harmless_immediate.
+
+(* destroy(h) of a dead handle only records a request; update() drops requests for handles that are not valid *)
+Theorem C09_update_drops_dead_requests : forall l s,
+  (forall h, In h l -> is_valid s h = false) -> fold_res destroy_now_unlocked l s = Ok s.
+Proof. exact fold_destroy_invalid. Qed.
+Print Assumptions C09_update_drops_dead_requests.
+
+(* deferred mode: recording changes only the caller's buffer (C05_isolation); at unlock the whole pack of a target
+   that is not valid at that moment is skipped, whatever commands it holds *)
+Theorem C09_harmless_deferred : forall tid s c t,
+  (match c with ACreate _ _ _ _ => False | _ => True end) ->
+  is_valid s (cmd_handle c) = false -> apply_pack tid s (c :: t) = Ok s.
+Proof. exact dead_target_pack_skipped. Qed.
+Print Assumptions C09_harmless_deferred.
+
+(* the null handle is never valid *)
+Theorem C09_null_invalid : forall s, is_valid s null_handle = false.
+Proof. intro s. reflexivity. Qed.
+Print Assumptions C09_null_invalid.
+
+(* non-vacuity: a reachable state with a recycled id, a stale handle of it, and a pending stale command *)
+Definition cis2 : list cinfo := [pal_info 0 0; pal_info 2 0].
+Example C09_example :
+  exists s issued, mrun true 16 cis2
+     [XoCreate 0 3 [] false; XoDestroyNow 0 0; XoCreate 0 3 [] false; XoUpdate; XoLock; XoRemove 0 0 1 true]%N = Ok (s, issued)
+  /\ map (is_valid s) issued = [false; true] /\ map fst issued = [0; 0]%N.
+Proof. eexists. eexists. split; [vm_compute; reflexivity|]. split; vm_compute; reflexivity. Qed.
